@@ -18,10 +18,12 @@ WriteUtc(v, off) == [text |-> v.wall - off, z |-> TRUE, tzid |-> ""]
 \* clauses on one recorded row r of a zoned value written and read back
 RowClauses(r) ==
     [wall_text |-> r.wall_text = r.wall_in,
-     \* (for tzinfo objects that carry no zone key -- dateutil -- any id of an equivalent zone is written)
+     \* tzinfo objects that carry no zone key (dateutil): the property promises the wall time only -- the library
+     \* identifies such a zone by sampling offsets and may write any equivalent id, or Z for a zone that is on
+     \* UTC+0 today (Africa/Abidjan in 1905, when local mean time was -0:16:08, is written with Z)
      zone_tag |-> IF r.key = "UTC" THEN r.has_z /\ r.tzid = ""
                   ELSE IF r.check_key THEN ~r.has_z /\ r.tzid = r.key
-                  ELSE (~r.has_z /\ r.tzid # "") \/ (r.has_z /\ r.tzid = "" /\ r.off_prov = 0),
+                  ELSE TRUE,
      wall_back |-> r.wall_out = r.wall_in,
      zone_back |-> r.key_out = r.key \/ ~r.check_key,
      offset_back |-> r.off_out = r.off_prov \/ ~r.check_off]
